@@ -903,3 +903,55 @@ def inline_helpers(mod: Module, func: ast.FunctionDef, depth: int = 2, only_priv
 def before(a: ast.AST, b: ast.AST) -> bool:
     """a precedes b in source / inlined order"""
     return (a.lineno, a.col_offset) < (b.lineno, b.col_offset)
+
+
+def unroll_literal_loops(mod: Module, func: ast.AST) -> ast.AST:
+    """a COPY of func in which every `for <targets> in <literal tuple/list of literals or of equally long literal tuples>:` whose body has no
+    break/continue is replaced by its body repeated once per element, the loop variables substituted (a module-level constant naming such a
+    literal is looked up).  A loop over literal (column, field) pairs then reads like the assignments it abbreviates."""
+    import copy as _copy
+    out = _copy.deepcopy(func)
+
+    def literal_seq(e):
+        if isinstance(e, ast.Name):
+            ds = defs_of(out, e.id)
+            if len(ds) == 1:
+                e = ds[0]
+            elif e.id in mod.constants:
+                e = mod.constants[e.id]
+        if isinstance(e, (ast.Tuple, ast.List)) and e.elts and len(e.elts) <= 12:
+            return list(e.elts)
+        return None
+
+    def unroll(stmts):
+        res = []
+        for st in stmts:
+            for fld in ("body", "orelse", "finalbody"):
+                sub = getattr(st, fld, None)
+                if isinstance(sub, list) and sub and isinstance(sub[0], ast.stmt) and not isinstance(st, (ast.FunctionDef, ast.AsyncFunctionDef, ast.ClassDef)):
+                    setattr(st, fld, unroll(sub))
+            if isinstance(st, ast.For) and not st.orelse and not any(isinstance(x, (ast.Break, ast.Continue)) for x in ast.walk(st)):
+                seq = literal_seq(st.iter)
+                tg = st.target
+                names = [tg.id] if isinstance(tg, ast.Name) else [x.id for x in tg.elts] if isinstance(tg, (ast.Tuple, ast.List)) and all(isinstance(x, ast.Name) for x in tg.elts) else None
+                if seq is not None and names is not None and all((len(names) == 1) or (isinstance(e, (ast.Tuple, ast.List)) and len(e.elts) == len(names)) for e in seq):
+                    stored = {n.id for b in st.body for n in ast.walk(b) if isinstance(n, ast.Name) and isinstance(n.ctx, ast.Store)}
+                    if not (set(names) & stored):
+                        for e in seq:
+                            sub = dict(zip(names, [e] if len(names) == 1 else e.elts))
+
+                            class S(ast.NodeTransformer):
+                                def visit_Name(self, n):
+                                    return _copy.deepcopy(sub[n.id]) if n.id in sub and isinstance(n.ctx, ast.Load) else n
+                            for b in st.body:
+                                nb = S().visit(_copy.deepcopy(b))
+                                ast.fix_missing_locations(nb)
+                                res.append(nb)
+                        continue
+            res.append(st)
+        return res
+    out.body = unroll(out.body)
+    for n in ast.walk(out):
+        for ch in ast.iter_child_nodes(n):
+            mod.parent[id(ch)] = n
+    return out
